@@ -27,7 +27,10 @@ THEOREMS = ["final_step_bound", "variance_gives_delta", "converged_rowsums_bound
             "applyUpdate_nonneg", "applyUpdate_zero_iff", "icLoop_invariant", "others_positive",
             "mask_iff_partial", "mask_iff", "icLoop_emptied_iff", "margVec_pattern", "balance_genome_mask_iff",
             "maskedBias_zero_iff", "rowsumTouch_eq", "provedInterval_sound", "madcut_real", "model_marg_eq_dense",
-            "model_final_step_bound", "model_converged_bound", "list_variance_gives_delta"]
+            "model_final_step_bound", "model_converged_bound", "list_variance_gives_delta",
+            "balance_trans_mask_iff", "balance_cis_mask_iff", "balance_genome_others_positive", "cis_fold_mask",
+            "model_converged_bound_cis", "cis_data_inBlock", "model_converged_bound_cis_data",
+            "map_insSort", "midPairG_map", "madBelow_iff_code"]
 LEVELS = {"model": "unit", "marginalize": "unit", "masks": "top", "flat": "top", "run": "top", "stored": "top",
           "cli": "top"}
 DESCRIBE = {
@@ -61,8 +64,8 @@ ASSUMPTIONS = ["counts >= 0, initial weights x0 >= 0 (NaN allowed), tol > 0, max
                "reports convergence)",
                "the bin-level filters of a trans-only run are evaluated, as in the code, on cis+trans data",
                "a bin that is not excluded but has no data left may carry NaN or a positive weight (outside the property)",
-               "the MAD-max cut is decided exactly on fourth powers of rationals (lemmas madcut_real, log_geomean, "
-               "abs_log_sub); that median/sort commute with the monotone log is not formalised"]
+               "the MAD-max cut is decided exactly on fourth powers of rationals; theorem madBelow_iff_code proves this "
+               "equal to the code's exp(median(log x) - m*MAD(log x)) comparison in exact real arithmetic"]
 CHUNK = 4
 sys.set_int_max_str_digits(0)   # exact rationals of the model have thousands of digits
 SLACK = 1e-9
